@@ -8,6 +8,10 @@ mod c01;
 mod c02;
 mod c03;
 mod c04;
+mod rec;
+mod c05;
+mod c06;
+mod c07;
 mod c16;
 mod c17;
 mod c19;
@@ -15,7 +19,7 @@ mod c19;
 use frame::{Check, Tier};
 
 fn registry() -> Vec<Box<dyn Check>> {
-    vec![Box::new(c01::C01), Box::new(c02::C02), Box::new(c03::C03), Box::new(c04::C04), Box::new(c16::C16), Box::new(c17::C17), Box::new(c19::C19)]
+    vec![Box::new(c01::C01), Box::new(c02::C02), Box::new(c03::C03), Box::new(c04::C04), Box::new(c05::C05), Box::new(c06::C06), Box::new(c07::C07), Box::new(c16::C16), Box::new(c17::C17), Box::new(c19::C19)]
 }
 
 fn find(id: &str) -> Box<dyn Check> {
@@ -71,6 +75,29 @@ fn main() {
                     if found >= 12 { break; }
                 }
             }
+        }
+        "dbgparse" => {
+            // vcheck dbgparse <grammar.y> <steps|prod> tok tok ...
+            let src = std::fs::read_to_string(&args[2]).unwrap();
+            let grm = cfgrammar::yacc::YaccGrammar::<u32>::new(cfgrammar::yacc::YaccKind::Original(cfgrammar::yacc::YaccOriginalActionKind::GenericParseTree), &src).unwrap();
+            let (sg, st) = lrtable::from_yacc(&grm, lrtable::Minimiser::Pager).unwrap();
+            println!("states={} conflicts={:?}", usize::from(sg.all_states_len()), st.conflicts().map(|c| (c.sr_len(), c.rr_len())));
+            let ucost: u8 = std::env::var("UCOST").ok().and_then(|s| s.parse().ok()).unwrap_or(1);
+            let toks: Vec<cfgrammar::TIdx<u32>> = args[4..].iter().map(|n| grm.token_idx(n).unwrap()).collect();
+            let mut rng = rng::Rng::new(1);
+            let si = lrx::syn_input(&toks, &mut rng, false);
+            if args[3] == "steps" {
+                lrpar::verif::set_recovery_budget_ms(Some(3_600_000));
+                lrpar::verif::set_recovery_step_budget(Some(50_000));
+            }
+            let (tree, errs) = lrx::parse_tree(&grm, &st, &si, lrpar::RecoveryKind::CPCTPlus, &|_| ucost);
+            println!("tree: {:?}", tree.map(|t| t.pp(&grm)));
+            for e in &errs {
+                if let lrpar::LexParseError::ParseError(pe) = e {
+                    println!("error at {:?} state {}: {}", lrpar::Lexeme::span(pe.lexeme()), usize::from(pe.stidx()), pe.repairs().iter().map(|s| s.iter().map(|r| lrx::pp_repair(&grm, r)).collect::<Vec<_>>().join(", ")).collect::<Vec<_>>().join(" | "));
+                }
+            }
+            println!("timeouts={}", lrpar::verif::timeouts_observed());
         }
         "probe17" => {
             c17::probe_main(args[2].parse().unwrap(), args[3].parse().unwrap());
